@@ -85,7 +85,7 @@ VendorDecode40(b) ==
        turbo |-> Bit(b[9], 5) = 1 \/ Bit(b[11], 1) = 1,   \* strongWind 0x20 / tubroValue 0x02
        eco |-> Bit(b[10], 7) = 1,               \* BYTE_ECO_ON 0x80
        purifier |-> Bit(b[10], 5) = 1,          \* BYTE_PURIFIER_ON 0x20
-       aux |-> IF iptc THEN 2 ELSE IF ptc THEN 1 ELSE 0,
+       ptc |-> ptc, iptc |-> iptc,              \* aux-heat (PTC) and independent PTC are separate vendor attributes
        sleep |-> Bit(b[11], 0) = 1,             \* sleep_status
        fahr |-> Bit(b[11], 2) = 1,              \* temperature_unit << 2
        hum |-> Field(b[20], 0, 7),              \* smartDryValue & 0x7F
@@ -114,6 +114,11 @@ VendorNeutral(b) ==
   /\ Field(b[22], 0, 7) = 0
   /\ Field(b[23], 0, 3) = 0 /\ Field(b[23], 4, 4) = 0
   /\ b[24] = 0
+
+(* the user's aux-heat MODE (0 off / 1 aux heat / 2 aux only) seen as the two vendor attributes *)
+Requested(s) == [ beep |-> s.beep, power |-> s.power, t2 |-> s.t2, mode |-> s.mode, fan |-> s.fan, swing |-> s.swing,
+                  follow |-> s.follow, turbo |-> s.turbo, eco |-> s.eco, purifier |-> s.purifier,
+                  ptc |-> s.aux = 1, iptc |-> s.aux = 2, sleep |-> s.sleep, fahr |-> s.fahr, hum |-> s.hum, freeze |-> s.freeze ]
 
 SettableDomain(s) ==
   /\ s.t2 \in 26..87 /\ s.mode \in 1..6 /\ s.fan \in 1..102 /\ s.swing \in {0, 3, 12, 15}
